@@ -1965,6 +1965,11 @@ func (e *CoreExtension) filterNumberFormat(value interface{}, args ...interface{
 		}
 	}
 
+	// A negative number of decimals means none
+	if decimals < 0 {
+		decimals = 0
+	}
+
 	// Format the number
 	format := "%." + strconv.Itoa(decimals) + "f"
 	str := fmt.Sprintf(format, num)
@@ -1976,7 +1981,8 @@ func (e *CoreExtension) filterNumberFormat(value interface{}, args ...interface{
 	// Handle negative numbers specially
 	isNegative := false
 	if strings.HasPrefix(intPart, "-") {
-		isNegative = true
+		// A value that rounds to zero has no sign
+		isNegative = strings.Trim(str, "-0.") != ""
 		intPart = intPart[1:] // Remove negative sign for processing
 	}
 
